@@ -14,7 +14,12 @@ FIRST = {
  3: {"C01/a": "missed", "C02/b": "missed (C05 caught it)", "C03/a": "missed", "C04/a": "missed", "C05/a": "nfi", "C05/b": "missed (C02 caught it)",
      "C06/b": "missed", "C08/a": "missed (C01 caught it)", "C09/a": "missed (C10 nfi)", "C09/b": "missed", "C10/a": "missed (C09 nfi)",
      "C10/b": "missed", "C11/a": "missed", "C12/a": "nfi", "C12/b": "missed", "C14/a": "missed (C15 caught it)", "C17/b": "missed"},
+ 4: {"C01/a": "missed", "C01/b": "missed", "C02/a": "missed", "C03/a": "missed (C05 caught it)", "C04/a": "missed", "C05/b": "missed (C10 nfi)",
+     "C06/a": "missed", "C07/a": "missed", "C08/b": "missed (C10 caught it)", "C10/a": "missed", "C11/a": "missed", "C11/b": "missed",
+     "C12/b": "missed", "C16/b": "missed", "C18/b": "missed", "C19/b": "missed"},
 }
+# seeds that violate none of the properties as stated (see DESIGN section 12); archived, not claimed
+NOT_CLAIMED = {(4, "C11/a"): "a rejected text leaves the receiver partly overwritten: C11 demands rejection (still given); no property speaks about the receiver after an error"}
 n = 0
 for pid in sorted(os.listdir(root)):
     for v, letter in (("a", la), ("b", lb)):
@@ -37,6 +42,10 @@ for pid in sorted(os.listdir(root)):
             "demo_clean_rc": clean, "demo_patched_rc": patched, "checks": checks,
             "own_check_first_run": FIRST.get(rnd, {}).get("%s/%s" % (pid, v), "caught"),
         }
+        nc = NOT_CLAIMED.get((rnd, "%s/%s" % (pid, v)))
+        meta["claimed"] = nc is None
+        if nc:
+            meta["not_claimed_because"] = nc
         meta["demo_file"] = "demo_test.go.txt (copy to demo_dest as a _test.go file)"
         dst = os.path.join("/verif/seeded", pid + letter)
         os.makedirs(dst, exist_ok=True)
